@@ -9,10 +9,10 @@ LEAN_MODULES = ["Mingus.Props.C09", "Mingus.Props.C09Float", "Mingus.Lemmas.Floa
 RULE = ("the 80-value vocabulary (10 base values x dots 0..4, x triplet/quintuplet/septuplet) built with the library's own "
         "constructors and analysed; every vocabulary value x perturbations {+-1%, +-0.5%, +-0.1%} and the doubles adjacent to "
         "every branch threshold at every scale; seeded random positive doubles; add/subtract on all ordered pairs of a 20-value "
-        "subset and every vocabulary value with itself; beat units as ints and as integral floats: integers -8..1100, 2^k and 2^k+-1 up to 2^40, halves, thirds, 1e308, inf, -inf, nan; counts -3..24. "
+        "subset and every vocabulary value with itself; beat units as ints and as integral floats: integers -8..1100, 2^k and 2^k+-1 up to 2^40, 2^k with odd and even neighbours and other even numbers for k up to 200, halves, thirds, 1e308, inf, -inf, nan; counts -3..24. "
         "Floats travel as exact fractions. Every meter call runs under a 2 s alarm (a timeout is the observation Hang)")
 EXHAUSTIVE = {"quick": False, "thorough": False}
-ASSUMPTIONS = ["integers beyond 2^53 as beat units are not generated (float conversion inside the halving loop loses their low bits)"]
+ASSUMPTIONS = []
 BASES = [0.25, 0.5, 1, 2, 4, 8, 16, 32, 64, 128]
 
 class _Timeout(Exception):
@@ -110,6 +110,11 @@ def cases(tier, rng):
         yield Case("value.add", [F(a), F(b)], "add/edge")
         yield Case("value.subtract", [F(a), F(b)], "subtract/edge")
     beats = list(range(-8, 1101)) + [2 ** k for k in range(11, 41)] + [2 ** k + 1 for k in range(1, 41)] + [2 ** k - 1 for k in range(2, 41)]
+    # integers far beyond 2^53 (where a float cannot hold them): powers of two, their odd and even neighbours, other even numbers
+    big = []
+    for k in (52, 53, 54, 55, 60, 63, 64, 70, 100, 200):
+        big += [2 ** k, 2 ** k + 1, 2 ** k - 1, 2 ** k + 2, 2 ** k - 2, 3 * 2 ** k, 2 ** k + 2 ** (k - 50), 2 ** k + 2 ** (k - 1)]
+    beats += big
     beats += [F(1, 2), F(1, 4), F(3, 2), F(5, 2), F(1, 3), F(2, 3), F(7, 4), F(-1, 2), F(1e308), F(2.0 ** 1000), F(1e-300), "inf", "-inf", "nan"]
     for b in beats:
         yield Case("meter.valid_beat_duration", [b], "beat/" + ("special" if isinstance(b, str) else "int" if isinstance(b, int) else "frac"))
@@ -120,6 +125,10 @@ def cases(tier, rng):
         for c in (3, 4, 6, 9, 0, -3):
             for f in ("meter.is_valid", "meter.is_simple", "meter.is_compound", "meter.is_asymmetrical"):
                 yield Case(f, [c, b], f.split(".")[1] + "/float", model=False)
+    for c in (3, 6, 4, 0):
+        for b in (2 ** 54, 2 ** 54 + 2, 2 ** 60 + 3, 2 ** 64 - 2, 2 ** 70, 3 * 2 ** 70):
+            for f in ("meter.is_valid", "meter.is_simple", "meter.is_compound", "meter.is_asymmetrical"):
+                yield Case(f, [c, b], f.split(".")[1] + "/big")
     for c in range(-3, 25):
         for b in [1, 2, 3, 4, 6, 8, 16, 0, -4, 12, 64, F(1, 2), F(5, 2), "inf", "nan", 1024, 1000]:
             for f in ("meter.is_valid", "meter.is_simple", "meter.is_compound", "meter.is_asymmetrical"):
